@@ -185,6 +185,17 @@ where
         vars
     }
 
+    /// Check if the given logic term refers to a variable that is neither associated with a
+    /// value nor reified in this substitution map.
+    pub fn is_unreified(&self, v: &LTerm<U, E>) -> bool {
+        let vwalk = self.walk(v);
+        match vwalk.as_ref() {
+            LTermInner::Var(_, _) => !vwalk.is_any(),
+            LTermInner::Cons(head, tail) => self.is_unreified(head) || self.is_unreified(tail),
+            _ => false,
+        }
+    }
+
     /// Collects the variables that occur in the term `v`, at any depth of a list.
     fn variables(v: &LTerm<U, E>, variables: &mut Vec<LTerm<U, E>>) {
         match v.as_ref() {
